@@ -247,4 +247,64 @@ PipelineDeterministic(L, wm, perModel) ==
   LET d == Dedupe(L, wm, TRUE)
       CP == ClashPairs(L, d.h, perModel) IN
   \A a, b \in CP : a # b => {a[1], a[2]} \cap {b[1], b[2]} = {}
+
+\* ------------------------------------------------------------------ 4. agreement of readers (C15)
+(***************************************************************************)
+(* A single-model, single-conformer table has one well-defined content:    *)
+(* its residues, their atoms, which consecutive residues of a chain are    *)
+(* bonded (O3'-P below 2.4 A).  Every reader generation, on either file    *)
+(* format, must report exactly that content.                               *)
+(***************************************************************************)
+Letters == <<"A","B","C","D","E","F","G","H","I","J","K","L","M","N","O","P","Q","R","S","T","U","V","W","X","Y","Z">>
+IcodeRank(ic) == IF ic = "" THEN 0
+                 ELSE IF \E k \in 1..26 : Letters[k] = ic THEN CHOOSE k \in 1..26 : Letters[k] = ic ELSE 27
+ResId(l)  == <<l.ch, l.num, l.ic>>
+ResIds(L) == { ResId(L[i]) : i \in Idx(L) }
+FirstLine(L, id) == Min({ i \in Idx(L) : ResId(L[i]) = id })
+Before(a, b) == a[2] < b[2] \/ (a[2] = b[2] /\ IcodeRank(a[3]) < IcodeRank(b[3]))
+
+\* atom `an` of residue id (C15 tables hold every atom once)
+AtomLines(L, id, an) == { i \in Idx(L) : ResId(L[i]) = id /\ L[i].an = an }
+Connected(L, a, b) ==
+  \E i \in AtomLines(L, a, "O3'") : \E j \in AtomLines(L, b, "P") : Closer(L[i], L[j], BondMilli)
+OnBondSphere(L, a, b) ==
+  \E i \in AtomLines(L, a, "O3'") : \E j \in AtomLines(L, b, "P") : OnSphere(L[i], L[j], BondMilli)
+
+\* consecutive residues of one chain (numbering order = file order, see AgreeDomain)
+Adjacent(L) == { ab \in ResIds(L) \X ResIds(L) :
+                   /\ ab[1][1] = ab[2][1] /\ Before(ab[1], ab[2])
+                   /\ ~\E c \in ResIds(L) : c[1] = ab[1][1] /\ Before(ab[1], c) /\ Before(c, ab[2]) }
+
+AgreeDomain(L) ==
+  /\ InDomain(L, 0)
+  /\ Cardinality(Models(L)) = 1
+  /\ \A i \in Idx(L) : L[i].alt = "" /\ Copies(L, i) = {i} /\ Partners(L, i) = {} /\ IcodeRank(L[i].ic) <= 26
+  /\ \A i, j \in Idx(L) : ResId(L[i]) = ResId(L[j]) => L[i].rn = L[j].rn
+  /\ \A a, b \in ResIds(L) : (a # b /\ a[1] = b[1]) =>
+        /\ (FirstLine(L, a) < FirstLine(L, b)) = Before(a, b)
+        /\ ~OnBondSphere(L, a, b)
+
+RKeys(res)  == { <<res[r].ch, res[r].num, res[r].ic, res[r].rn>> : r \in 1..Len(res) }
+AtomSetOf(r) == { r.atoms[a] : a \in 1..Len(r.atoms) }
+SeqSet(s)   == { s[n] : n \in 1..Len(s) }
+
+\* SameResidues: exactly the table's residues (chain, number, icode, name), each once
+SameResidues(L, res) ==
+  LET exp == { ResKey(L[i]) : i \in Idx(L) } IN RKeys(res) = exp /\ Len(res) = Cardinality(exp)
+
+\* SameAtomsAndCoords: every residue holds exactly its atoms, at the written coordinates, each once
+SameAtomsAndCoords(L, res) ==
+  \A r \in 1..Len(res) :
+     /\ AtomSetOf(res[r]) = { AtomRec(L[i]) : i \in { j \in Idx(L) : ResKey(L[j]) =
+                                    <<res[r].ch, res[r].num, res[r].ic, res[r].rn>> } }
+     /\ Len(res[r].atoms) = Cardinality(AtomSetOf(res[r]))
+
+\* SameConnectivity, residue-level reader: is_connected(a, b) was asked for the pairs `queried`
+\* (at least all consecutive ones) and answered yes exactly for `conn`
+ConnectivityAnswersOK(L, queried, conn) ==
+  /\ Adjacent(L) \subseteq queried /\ conn \subseteq queried
+  /\ \A q \in queried : (q \in conn) = Connected(L, q[1], q[2])
+
+\* SameConnectivity, table-level reader: the consecutive pairs inside its connected segments
+SegmentPairsOK(L, pairs) == pairs = { ab \in Adjacent(L) : Connected(L, ab[1], ab[2]) }
 =============================================================================
